@@ -457,6 +457,40 @@ func (c *Ctx) bitop(op Op, in []*Term) *Term {
 	for _, t := range in {
 		flat(t)
 	}
+	if op == OAnd && hasConcat && len(args) >= 2 {
+		// x & (x-1) over a vector assembled from single bits: clear the lowest set bit, bit-wise: bit i survives iff
+		// it is set and some lower bit is set (no borrow chain for the solver to unravel)
+		for i, y := range args {
+			if y.Op != OAdd || len(y.Args) != 2 || !y.Args[1].IsConst() || y.Args[1].C != m || y.Args[0].Op != OConcat {
+				continue
+			}
+			x := y.Args[0]
+			j := -1
+			for k, t := range args {
+				if t == x {
+					j = k
+				}
+			}
+			if j < 0 {
+				continue
+			}
+			parts := make([]*Term, w)
+			lower := c.False
+			for b := uint8(0); b < w; b++ {
+				xb := c.Bit(x, b)
+				parts[w-1-b] = c.And(xb, lower)
+				lower = c.Or(lower, xb)
+			}
+			var rest []*Term
+			for k, t := range args {
+				if k != i && k != j {
+					rest = append(rest, t)
+				}
+			}
+			rest = append(rest, c.Concat(parts...), c.Const(w, cv))
+			return c.bitop(OAnd, rest)
+		}
+	}
 	switch op {
 	case OAnd:
 		if cv == 0 {
@@ -1028,6 +1062,39 @@ func (c *Ctx) Eq(a, b *Term) *Term {
 		}
 		return c.Not(c.Xor(a, b))
 	}
+	// equalities between merges that share an arm: no duplication, and the shared (often huge) arm drops out
+	if a.Op == OIte && b.Op == OIte && a.Args[0] == b.Args[0] {
+		if a.Args[1] == b.Args[1] {
+			return c.Or(a.Args[0], c.Eq(a.Args[2], b.Args[2]))
+		}
+		if a.Args[2] == b.Args[2] {
+			return c.Or(c.Not(a.Args[0]), c.Eq(a.Args[1], b.Args[1]))
+		}
+	}
+	for i := 0; i < 2; i++ {
+		p, q := a, b
+		if i == 1 {
+			p, q = b, a
+		}
+		if p.Op == OIte && !q.IsConst() {
+			if p.Args[1] == q {
+				return c.Or(p.Args[0], c.Eq(p.Args[2], q))
+			}
+			if p.Args[2] == q {
+				return c.Or(c.Not(p.Args[0]), c.Eq(p.Args[1], q))
+			}
+		}
+	}
+	// x & (x-1) == 0: "at most one bit set", as a canonical population count (so that the same test on a permuted
+	// bit-vector, e.g. a mirrored bitboard, is the identical term instead of a borrow chain in another order)
+	if b.IsConst() && b.C == 0 && a.Op == OAnd && len(a.Args) == 2 && a.W > 8 {
+		for i := 0; i < 2; i++ {
+			x, y := a.Args[i], a.Args[1-i]
+			if y.Op == OAdd && len(y.Args) == 2 && y.Args[0] == x && y.Args[1].IsConst() && y.Args[1].C == Mask(a.W) {
+				return c.Ult(c.Popcount(x, 8), c.Const(8, 2))
+			}
+		}
+	}
 	if r, ok := c.lift2(a, b, c.Eq); ok {
 		return r
 	}
@@ -1591,6 +1658,9 @@ func (c *Ctx) Popcount(a *Term, w uint8) *Term {
 	if len(xs) == 0 {
 		return c.Const(w, 0)
 	}
+	// canonical operand order: the count of a permuted bit-vector (a mirrored bitboard) is then the identical term,
+	// instead of an adder tree in another order that a SAT solver cannot match up
+	sort.Slice(xs, func(i, j int) bool { return xs[i].ID < xs[j].ID })
 	// balanced sum
 	for len(xs) > 1 {
 		var nx []*Term
